@@ -1,12 +1,12 @@
 SPECIFICATION Spec
 CONSTANTS KnownDevs = {"F-QER-RELABEL"}
 INVARIANTS
+  InEnvelope
+  EnvDistinctMatchKeys
   C03_TablesAreImage
   C03_UnknownOrUnassociatedRejected
   C03_RejectedWritesNothing
   C03_StartClearsLookupModules
-  InEnvelope
-  EnvDistinctMatchKeys
 POSTCONDITION TraceAccepted
 ALIAS Alias
 CHECK_DEADLOCK FALSE
